@@ -5,6 +5,7 @@ import (
 	"fmt"
 	"sort"
 	"sync"
+	"time"
 
 	"google.golang.org/protobuf/proto"
 
@@ -295,14 +296,18 @@ type World struct {
 	frameTriggers []frameTrigger
 	frameCount    int
 
-	servers   []serverRef
-	rawID     *rawIDState
-	shapeCase *shapeCase
-	overrun   *overrunCase
-	fuzz      *fuzzCase
-	vstreams  map[int]*grpctunnel.VerifStream
-	ConnMeta  map[int]ConnMeta
-	wire      map[int]*wireConn
+	servers          []serverRef
+	rawID            *rawIDState
+	shapeCase        *shapeCase
+	overrun          *overrunCase
+	fuzz             *fuzzCase
+	matrix           *matrixCase
+	settingsCase     *settingsCase
+	openDeadline     time.Duration
+	nextOpenDeadline time.Duration
+	vstreams         map[int]*grpctunnel.VerifStream
+	ConnMeta         map[int]ConnMeta
+	wire             map[int]*wireConn
 
 	SimCfg       *simrt.Config
 	Inconclusive int
